@@ -460,7 +460,7 @@ func c04Challenge(p *Prog, r *Report, R1 string) {
 	checkWriter(p, r, R1, layoutSpec{name: name, writer: "(~/tokens.TokenChallenge).Marshal",
 		wterm: "cat(u16(param:0.TokenType), lp16(param:0.IssuerName), lp8(param:0.RedemptionNonce), lp16(join(param:0.OriginInfo, lit:\",\")))"})
 	fn, s, succ := checkReader(p, r, R1, layoutSpec{name: name, reader: "~/tokens.UnmarshalTokenChallenge",
-		reads: []string{"u16->*.TokenType", "lp16->local:*", "lp8->local:*", "lp16->local:*"}})
+		reads: []string{"u16->*", "lp16->local:*", "lp8->local:*", "lp16->local:*"}})
 	if fn == nil {
 		return
 	}
@@ -479,6 +479,7 @@ func c04Challenge(p *Prog, r *Report, R1 string) {
 		out := func(i int) string { return "out<1>(" + s.callTerm(main[i].Call).String() + ")" }
 		st := s.Of(rp.Vals[0])
 		want := map[string]string{
+			"TokenType":  out(0),
 			"IssuerName": out(1),
 			"OriginInfo": "call<strings.Split>(" + out(3) + ", lit:\",\")",
 		}
@@ -489,7 +490,8 @@ func c04Challenge(p *Prog, r *Report, R1 string) {
 					got = v.String()
 				}
 			}
-			r.Check(got == w, R1, name+": decoded ."+f+" comes from the bytes read", p.Pos(rp.Ret.Pos()), clip(w, 120), "decoded ."+f+" is "+clip(got, 400)+", required "+clip(w, 400))
+			// a read straight into the struct field is named out<fld>(call)
+			r.Check(got == w || got == strings.Replace(w, "out<1>(", "out<fld>(", 1), R1, name+": decoded ."+f+" comes from the bytes read", p.Pos(rp.Ret.Pos()), clip(w, 120), "decoded ."+f+" is "+clip(got, 400)+", required "+clip(w, 400))
 		}
 		// RedemptionNonce = make(len(L)); copy
 		found := false
@@ -774,6 +776,56 @@ func c04BatchRequest(p *Prog, r *Report, R4 string) {
 			if !s.factsHaveCallSuccess(u.Block(), c) {
 				probs = append(probs, "the element is decoded without the selector having accepted the tag")
 			}
+		}
+	} else if c, ok := recv.(*ssa.Call); ok && c.Call.StaticCallee() != nil && InModule(c.Call.StaticCallee()) && c.Call.StaticCallee().Blocks != nil {
+		// selector with a single result: a fresh decoder object per tag, nil for
+		// tags the batch does not carry; the walker must test for nil
+		f := c.Call.StaticCallee()
+		ch := s.child(f)
+		s.bindArgs(ch, f, c.Call.Args, c)
+		tagParam := ""
+		for i, prm := range f.Params {
+			if i < len(c.Call.Args) && strings.Contains(ch.params[prm].String(), "bigEndian).Uint16>") {
+				tagParam = ch.params[prm].String()
+			}
+		}
+		for _, rp := range ch.ff.RetPoints(-1) {
+			if len(rp.Vals) != 1 {
+				continue
+			}
+			if isNilConst(rp.Vals[0]) {
+				continue
+			}
+			mi, ok := rp.Vals[0].(*ssa.MakeInterface)
+			if !ok {
+				probs = append(probs, "the selector returns something that is neither nil nor a fresh decoder object")
+				continue
+			}
+			tn := typeShort(deref(mi.X.Type()))
+			found := false
+			for _, a := range rp.Facts {
+				if a.Kind == Truth && a.Pol {
+					if bo, ok := a.V.(*ssa.BinOp); ok && bo.Op == token.EQL {
+						if cst, ok := bo.Y.(*ssa.Const); ok && cst.Value != nil && tagParam != "" && ch.Of(bo.X).String() == tagParam {
+							tagOf[cst.Value.ExactString()] = tn
+							found = true
+							break
+						}
+					}
+				}
+			}
+			if !found {
+				probs = append(probs, "decoder "+tn+" is selected without comparing the element's tag with a constant")
+			}
+		}
+		nonNil := false
+		for _, a := range s.ff.At(u.Block()) {
+			if a.Kind == IsNil && !a.Pol && a.V == ssa.Value(c) {
+				nonNil = true
+			}
+		}
+		if !nonNil {
+			probs = append(probs, "the element is decoded without testing the selector's result for nil")
 		}
 	} else {
 		probs = append(probs, "element decoder is not selected per tag")
